@@ -220,15 +220,15 @@ def createPadding (i : PadIn) : Pad :=
 def neededTotalPadding (input stride filter : Int) : Int :=
   if input % stride = 0 then max (filter - stride) 0 else max (filter - input % stride) 0
 
-/-- the `while` loop of `calc_explicit_padding` (decreasing `after`) -/
-def explicitAfter (stride tmb : Int) : Nat → Nat
-  | 0 => 0
-  | n + 1 => if ((n + 1 : Nat) : Int) % stride ≠ tmb % stride then explicitAfter stride tmb n else n + 1
-
-/-- `calc_explicit_padding(input_size, stride, filter_size, pad_before, pad_after)` -/
+/-- `calc_explicit_padding(input_size, stride, filter_size, pad_before, pad_after)`: the padding after the input is the part of
+    the PAD that the last window of the (VALID) operation over the padded input reaches:
+    `output = max((input + before + after - filter) // stride + 1, 1)`, `covered = (output - 1) * stride + filter`,
+    `after' = min(after, max(covered - before - input, 0))` -/
 def calcExplicitPadding (input stride filter before : Int) (after : Nat) : Int × Int :=
-  let total := neededTotalPadding input stride filter
-  (before, (explicitAfter stride (total - before) after : Nat))
+  let padded := input + before + after
+  let out := max ((padded - filter) / stride + 1) 1
+  let covered := (out - 1) * stride + filter
+  (before, min (after : Int) (max (covered - before - input) 0))
 
 inductive PadMode where
   | same | valid | explicit | tile
